@@ -836,6 +836,69 @@ pub fn exec_line(sess: &mut Session, line: &str) -> String {
             }
             out.join(" ")
         }
+        "@refcount_saturation" => {
+            // `n` cells hold one text; then a table and a column of that very name are created
+            // (their catalog rows refer to the same text): around n = 65,533 the 16-bit reference
+            // count of the pool entry fills up and a second entry with the same text begins.
+            // Reported: schema of the new table before and after save and reopen, rows readable.
+            let n: usize = toks[1].parse().unwrap();
+            let medium = crate::session::Medium::new(Vec::new());
+            let mut pkg = msi::Package::create(msi::PackageType::Installer, medium.clone()).unwrap();
+            pkg.create_table("Fill", vec![msi::Column::build("K").primary_key().int32(), msi::Column::build("S").nullable().string(0)]).unwrap();
+            let rows: Vec<Vec<msi::Value>> = (0..n).map(|i| vec![msi::Value::Int(i as i32 + 1), msi::Value::Str("Marker".into())]).collect();
+            let mut out: Vec<String> = vec![];
+            if n > 0 {
+                out.push(crate::session::res_unit(pkg.insert_rows(msi::Insert::into("Fill").rows(rows))));
+            }
+            let r = pkg.create_table(
+                "Marker",
+                vec![
+                    msi::Column::build("Marker").primary_key().category(msi::Category::Identifier).string(32),
+                    msi::Column::build("Other").nullable().range(1, 9).int16(),
+                ],
+            );
+            out.push(format!("create:{}", crate::session::res_unit(r).replace(' ', "_")));
+            let _ = pkg.insert_rows(msi::Insert::into("Marker").row(vec![msi::Value::Str("Marker".into()), msi::Value::Int(3)]));
+            let describe = |pkg: &mut crate::session::Pkg| -> String {
+                let cols = match pkg.get_table("Marker") {
+                    Some(t) => crate::session::cols_tok(t.columns()),
+                    None => "absent".to_string(),
+                };
+                let rows = match pkg.select_rows(msi::Select::table("Marker")) {
+                    Ok(rows) => rows.len().to_string(),
+                    Err(e) => format!("ERR:{}", crate::session::kind_name(&e)),
+                };
+                let fill = match pkg.select_rows(msi::Select::table("Fill")) {
+                    Ok(rows) => {
+                        let total = rows.len();
+                        let good = rows.filter(|r| r[1] == msi::Value::Str("Marker".into())).count();
+                        format!("{good}/{total}")
+                    }
+                    Err(e) => format!("ERR:{}", crate::session::kind_name(&e)),
+                };
+                format!("cols={cols} rows={rows} fill={fill}")
+            };
+            let before = describe(&mut pkg);
+            match pkg.flush() {
+                Ok(()) => {
+                    std::mem::forget(pkg);
+                    match msi::Package::open(crate::session::Medium::new(medium.snapshot_bytes())) {
+                        Ok(mut p2) => {
+                            let after = describe(&mut p2);
+                            out.push(format!("same={}", (before == after) as i32));
+                            if before != after {
+                                out.push(format!("before[{}]", before.replace(' ', "_")));
+                                out.push(format!("after[{}]", after.replace(' ', "_")));
+                            }
+                            out.push(format!("fill={}", after.rsplit("fill=").next().unwrap_or("")));
+                        }
+                        Err(e) => out.push(format!("reopen-err:{}", crate::session::kind_name(&e))),
+                    }
+                }
+                Err(e) => out.push(format!("flush-err:{}", crate::session::kind_name(&e))),
+            }
+            out.join(" ")
+        }
         "@pool_limit" => {
             // a foreign database whose string pool holds `n` entries (two-byte references),
             // then inserts of fresh strings until past the capacity
